@@ -332,6 +332,14 @@ def run(facts, tier):
             r2.violate(f"in-E/{d}", f"`{d}` can reach {sorted(f)} and is reachable during filter execution", detail=g.chain(par_cut, inE[0]))
     rules.append(r2.finish())
 
+    # ---------------- R6.6 the `--in-place` temporary file cannot be left behind (shared with C18 W18.7)
+    from c18 import rule_exit_only_after_run
+    rules.append(rule_exit_only_after_run(facts, "R6.6").finish())
+
+    # ---------------- R6.7 the documented exception is an exclusively created temporary file (shared with C18 W18.4)
+    from c18 import rule_sole_writer
+    rules.append(rule_sole_writer(facts, "R6.7").finish())
+
     explanation = ("Sound over-approximation of everything that can execute once a filter runs: BFS over the monomorphic whole-program call graph "
                    f"({len(N)} instances of the jaq binary incl. all dependencies; direct calls, drop glue, closures, fn-pointer calls resolved by erased signature, "
                    "virtual calls resolved by unsizing sites) from all native filters, the interpreter and all codecs; every body-less leaf is classified by an explicit API table.")
